@@ -327,8 +327,9 @@ example : isValidV { allowInvalidUTF8 := true } [0x22, 0x5c, 0x75, 0x64, 0x38, 0
 example : (⟨true, true, true, false, false, compactOpts⟩ : FOpts).verbatim := ⟨rfl, rfl, rfl⟩
 
 /-- **Meaning preserved and fixed point when strings are respelled** (both validation options; every combination of
-PreserveRawStrings / EscapeForHTML / EscapeForJS except PreserveRawStrings together with an escape option — in
-particular `Value.Format()` with the default options, and with the escape options): the output is accepted under
+PreserveRawStrings / EscapeForHTML / EscapeForJS / AllowInvalidUTF8 except PreserveRawStrings together with an escape
+option AND AllowInvalidUTF8 — in particular `Value.Format()` with the default options, with the escape options, and
+`Value.Compact/Indent` with an escape option under strict UTF-8): the output is accepted under
 the same validation options, its tokens are the input tokens with every string respelled (ReformatString, slice
 C11: the RFC 8785 spelling of the same text), every string keeps its unquoted text, all other tokens are unchanged,
 and formatting the output again returns it unchanged.  The hypothesis `NameKeyUnquote` (the name key of a literal is its
@@ -359,7 +360,8 @@ theorem formatV_respell (o : FOpts) (hR : o.respellable) (hw : o.ws.Blank) (hd :
 
 /-- the default options of `Value.Format` have no escape option -/
 example : ({} : FOpts).respellable := Or.inl ⟨rfl, rfl⟩
-example : ({ html := true, js := true } : FOpts).respellable := Or.inr rfl
+example : ({ html := true, js := true } : FOpts).respellable := Or.inr (Or.inl rfl)
+example : ({ preserve := true, html := true, js := true } : FOpts).respellable := Or.inr (Or.inr rfl)
 
 /-- For EVERY string option set (also PreserveRawStrings with an escape option) under strict UTF-8: each string of an
 accepted text keeps its unquoted text when respelled (slice C11's `reformat_meaning_strict`). -/
@@ -391,9 +393,22 @@ theorem format_default_idem (w : WsOpts) (hw : w.Blank) (b b' : Bytes) (h : form
   obtain ⟨_, _, _, _, hid⟩ := formatV_respell_all { ws := w } (Or.inl ⟨rfl, rfl⟩) hw b b' h
   exact hid
 
-/-- Full statements over ALL string options (open part: PreserveRawStrings together with EscapeForHTML / EscapeForJS —
-the escape loop over the raw literal: slice C11 proves its meaning under strict UTF-8 (`reformat_meaning_strict`), but
-not yet that its output is again a string literal and a fixed point of the loop), validated by the harness predicates and by the `fmt formatv` correspondence: the output tokens are the input tokens with every
+/-- **Fixed point of `Value.Format`** for every respellable option set, stated alone. -/
+theorem formatV_idem_all (o : FOpts) (hR : o.respellable) (hw : o.ws.Blank) (b b' : Bytes) (h : formatV o b = some b') :
+    formatV o b' = some b' := by
+  obtain ⟨_, _, _, _, hid⟩ := formatV_respell_all o hR hw b b' h
+  exact hid
+
+/-- the only option sets not covered: PreserveRawStrings ∧ (EscapeForHTML ∨ EscapeForJS) ∧ AllowInvalidUTF8 -/
+theorem respellable_iff (o : FOpts) :
+    o.respellable ↔ ¬ (o.preserve = true ∧ (o.html = true ∨ o.js = true) ∧ o.allowInvalidUTF8 = true) := by
+  unfold FOpts.respellable FOpts.noEscape
+  cases o.preserve <;> cases o.html <;> cases o.js <;> cases o.allowInvalidUTF8 <;> simp
+
+/-- Full statements over ALL option sets.  The only open part is PreserveRawStrings together with EscapeForHTML /
+EscapeForJS AND AllowInvalidUTF8 (the escape loop over a raw literal that may contain ill-formed UTF-8; slice C11's
+`preserve_*` theorems need the strict scanner); everything else is `formatV_respell_all` / `formatV_idem_all`.
+Validated by the harness predicates and by the `fmt formatv` correspondence: the output tokens are the input tokens with every
 string replaced by a literal of the same unescaped value, and formatting is idempotent. -/
 def formatV_meaning_full : Prop :=
   ∀ (o : FOpts) (b b' : Bytes), o.ws.Blank → formatV o b = some b' →
